@@ -537,6 +537,46 @@ let () =
       | _ -> failwith "cert_matches")
 
 let () =
+  (* cert_run <idl> <client id> | <k> <method> <canonical params json> <request json> ...   (groups of four)
+     one client, expected step 1 (just after Start); each call goes through the extracted state machine Cert.cert_call *)
+  register "cert_run" (fun toks ->
+      let (hd, calls) = split_bar [] toks in
+      match hd with
+      | [x; cid] ->
+        (match Idl.try_from (codepoints (unhex x)) with
+         | Idl.OIdl i ->
+           let env = Gen.typedefs_of i in
+           let cidb = hb cid in
+           let rec groups = function
+             | k :: name :: cj :: rq :: rest -> (int_of_string k, name, cj, rq) :: groups rest
+             | [] -> []
+             | _ -> failwith "cert_run: groups of four" in
+           let gs = groups calls in
+           let fields_of name =
+             let nm = cps_of_ascii name in
+             (match (try Some (Stdlib.List.find (fun ((n, _), _) -> n = nm) (Gen.methods_of i)) with Not_found -> None) with
+              | Some ((_, fs), _) -> fs
+              | None -> failwith ("cert_run: no method " ^ name)) in
+           let names = Hashtbl.create 16 and canons = Hashtbl.create 16 in
+           Stdlib.List.iter (fun (k, name, cj, _) ->
+               Hashtbl.replace names k name;
+               (match Json.parse_value (hb cj) with Base.Ok c -> Hashtbl.replace canons k c | _ -> failwith "cert_run: canonical json")) gs;
+           let rec int_of_nat = function Datatypes.O -> 0 | Datatypes.S n -> 1 + int_of_nat n in
+           let fields kn = (match Hashtbl.find_opt names (int_of_nat kn) with Some n -> fields_of n | None -> []) in
+           let canon kn _ = (match Hashtbl.find_opt canons (int_of_nat kn) with Some c -> c | None -> Json.JNull) in
+           let st = ref [ (cidb, nat_of_int 1) ] in
+           let outs = Stdlib.List.map (fun (k, _, _, rq) ->
+               match Wire.decode_request (hb rq) with
+               | Base.Ok q ->
+                 let (st', o) = CertSrc.src_cert_call env fields canon !st (nat_of_int k) q in
+                 st := st';
+                 (match o with Cert.CSuccess -> "S" | Cert.CClientIdError -> "I" | Cert.CCertError -> "C" | Cert.CInvalidParameter -> "P")
+               | _ -> "X") gs in
+           String.concat "" outs
+         | _ -> "badidl")
+      | _ -> failwith "cert_run")
+
+let () =
   let tbl = handlers in
   (try
      while true do
